@@ -104,6 +104,11 @@ def shapes():
            ("Equals", ("Select", ("Array", ("type", INT), L(7, INT), ("dict", (L(1, INT), y), (L(2, INT), ("Plus", z, L(3, INT))))), x), L(2, INT)),
            ("LT", ("Select", ("Array", ("type", INT), y), L(4, INT)), L(1, INT)),
            ("Equals", ("Select", ("Store", ("Array", ("type", INT), L(0, INT), ("dict", (L(1, INT), y))), L(2, INT), z), L(1, INT)), L(0, INT))]
+    # stores of the default element over array values with explicit entries, at indices the model decides
+    av15 = ("Array", ("type", INT), L(0, INT), ("dict", (L(1, INT), L(5, INT))))
+    sh += [("Equals", ("Select", ("Store", av15, x, L(0, INT)), L(1, INT)), y), ("Equals", ("Select", ("Store", av15, x, L(0, INT)), x), y),
+           ("Equals", ("Select", ("Store", ("Store", ("Array", ("type", INT), L(0, INT)), L(1, INT), L(5, INT)), x, L(0, INT)), L(1, INT)), y),
+           ("Equals", ("Select", ("Store", av15, ("Plus", x, y), L(0, INT)), L(1, INT)), z)]
     return [Shape(t) for t in sh]
 
 
@@ -277,6 +282,16 @@ def string_shapes():
     tiny, one = L(F(1, 10**20), REAL), L(F(1), REAL)
     sh += [("LT", r, ("Plus", r, tiny)), ("Equals", ("Plus", r, tiny), r), ("Minus", ("Plus", r, one), r), ("Plus", r, tiny),
            ("LT", ("Times", r, L(F(3), REAL)), ("Plus", L(F(1), REAL), tiny)), ("Equals", ("Plus", r, one), ("Plus", one, r))]
+    # arrays under concrete models: here an index given by the model may coincide with an explicit entry of an array value
+    # (the symbolic-constant runs stand for the models in which it does not)
+    y, z = S("y", INT), S("z", INT)
+    av15 = ("Array", ("type", INT), L(0, INT), ("dict", (L(1, INT), L(5, INT))))
+    av2 = ("Array", ("type", INT), L(2, INT), ("dict", (L(0, INT), L(1, INT)), (L(1, INT), L(2, INT))))
+    for av in (av15, av2):
+        for v_ in (L(0, INT), L(2, INT), y):
+            sh += [("Equals", ("Select", ("Store", av, x, v_), L(1, INT)), z), ("Equals", ("Select", ("Store", av, x, v_), x), z),
+                   ("Equals", ("Select", ("Store", ("Store", av, x, v_), y, L(1, INT)), L(1, INT)), z)]
+        sh += [("Equals", ("Select", av, x), y), ("Select", ("Store", av, ("Plus", x, y), L(0, INT)), L(1, INT))]
     return [Shape(t) for t in sh]
 
 
